@@ -132,6 +132,8 @@ def verify_function(ctx, key, c=None, only_case=None):
                       bind = None
                   for f in lemma_facts(ex, ln, st, bind):
                       st.assume(f)
+              st.ghost = dict(st.ghost)
+              st.ghost["entry_pc"] = len(st.pc)      # the hypotheses up to here are the precondition (see needs "-path")
               if c.ghost.get("fs"):
                   from .lib_obj import FSV, FS_SORT
                   st.ghost["fs"] = FSV(z3.Const(fresh_name("fs0"), FS_SORT))
@@ -216,17 +218,32 @@ def finish_path(ex, c, env, entry, o, is_gen):
     if c.ghost.get("locals_visible"):
         # the function's local variables at exit, readable in clauses as local_<name> (for stepping-stone clauses)
         for lname, lval in o.env.items():
-            if isinstance(lname, str) and lname not in senv:
-                senv["local_" + lname] = lval
+            if isinstance(lname, str) and "local_" + lname not in senv:
+                senv["local_" + lname] = lval      # a reassigned parameter too: `a` is the argument, `local_a` its value at exit
     chain = bool(c.ghost.get("chain_ensures"))
-    for lab, text in c.ensures:
+    for ent in c.ensures:
+        lab, text = ent[0], ent[1]
+        nd = getattr(c, "ensure_needs", {}).get(lab)
+        needs = (set(nd) | {lab}) if nd is not None else None
         if sel and ((sel[0] == "skip" and lab in sel[1]) or (sel[0] == "only" and lab not in sel[1])):
             continue
         f = ex.spec_formula(text, senv, o, old_st=entry)
-        ex.oblig("post", lab, o, _b(f))
+        ex.oblig("post", lab, o, _b(f), keep_invs=needs)
         if chain:
             # cut rule: a clause that has its own obligation may be used to prove the clauses after it
-            o.assume(_b(f))
+            # (re-read in assume mode: a `use(lemma)` hint inside it is a proof step of the clause, not part of the fact)
+            ex.assume_mode += 1
+            try:
+                fb = _b(ex.spec_formula(text, senv, o, old_st=entry))
+            finally:
+                ex.assume_mode -= 1
+            o.assume(fb)
+            if is_z3(fb):
+                # tagged with its label: a later clause that declares its needs gets only the earlier clauses it names
+                o.ghost = dict(o.ghost)
+                tags = dict(o.ghost.get("inv_tags", {}))
+                tags[fb.get_id()] = (lab, fb)
+                o.ghost["inv_tags"] = tags
     if sel and sel[0] == "only":
         return
     # frame: every heap object reachable from a parameter and not in `modifies` is unchanged
